@@ -447,6 +447,14 @@ def _raw_amplitude_uses(stmts: List[ast.stmt], operand: str) -> List[Tuple[ast.A
                     continue
                 bad.append((p, f"`{norm(p)}` reads a raw amplitude of `{operand}` that is not multiplied by {operand}.params['coefficient']"))
                 continue
+            if isinstance(p, ast.Attribute) and p.value is n and p.attr in ("get", "pop", "setdefault"):
+                call = parents.get(id(p))
+                if isinstance(call, ast.Call) and call.func is p:
+                    # `map.get(key, default)` reads a raw amplitude exactly like `map[key]`
+                    if _weighted_by(call, parents, operand):
+                        continue
+                    bad.append((call, f"`{norm(call)}` reads a raw amplitude of `{operand}` that is not multiplied by {operand}.params['coefficient']"))
+                    continue
             raise AnalysisError(f"C18f: `{norm(p)[:70]}` uses the amplitude map of `{operand}` in a way the rule has no idiom for; whether the "
                                 f"amplitudes are weighted by the coefficient is undecided")
     return bad
